@@ -226,15 +226,13 @@ func (s *Stats) Flush(t testing.TB) {
 		"distinct_local": len(hs),
 		"classes":        s.Classes, "samples": s.Samples,
 		"known_hits": s.KnownHits, "exhaustive": s.Exhaustive,
-		"extra": s.Extra, "missing_classes": missing,
+		"extra": s.Extra, "missing_classes": missing, "require": s.Require,
 	}
 	b, _ := json.MarshalIndent(doc, "", " ")
 	if err := os.WriteFile(base+".json", b, 0o644); err != nil {
 		t.Logf("VERIF-INFRA: cannot write stats: %v", err)
 	}
-	if len(missing) > 0 && !t.Failed() {
-		fmt.Printf("VERIF-INFRA: %s: generator never produced required classes %v\n", s.Test, missing)
-	}
+	// (the driver checks the required classes over the union of all shards)
 }
 
 // ---------------------------------------------------------------------------
